@@ -321,6 +321,8 @@ class C02(Prop):
             L.extend(short[len(longs) * step:])
         if STRICT_SETTINGS:
             L = [self.strict_line(l) for l in L]
+        # 5. split() at every position of a request-body reader's call sequence (builder aC13)
+        self._split_cases(tier, rng, add)
         return L
 
     @staticmethod
@@ -343,6 +345,8 @@ class C02(Prop):
             op = w[1].rstrip("S")
             if op == "loop" and len(w) == 3:
                 qs.append("fs judge %s loop %s @@ %s" % (strict, w[2], o))
+            elif op == "calls" and len(w) == 4 and w[3] and set(w[3]) <= set("rs"):
+                continue     # calls on a real RequestStream with split(): judged by the driver's own spec half (reqView)
             elif op == "calls" and len(w) == 4:
                 qs.append("fs judge %s calls %s %s @@ %s" % (strict, w[2], w[3], o))
             else:
@@ -361,8 +365,83 @@ class C02(Prop):
     def trivial_raw(self, line, raw):
         return self.trivial(line, raw)
 
+
+    # ------------------------------------------------------------------ second round (seeds2/C02 patch3): split()
+
+    def _split_cases(self, tier, rng, add):
+        """`fs calls <script> <calls over r, s>`: a request-body reader (`r` = one poll_recv_data on a real
+        client::RequestStream over the scripted stream) with `s` = split() at every position of the call sequence"""
+        big = tier == "thorough"
+
+        def lines(parts, ending, pend, allpos):
+            sc = script(parts, ending, rng, pend)
+            nev = len(sc.split(",")) if sc != "-" else 0
+            nbytes = sum(len(p) for p in parts)
+            n = nev + nbytes // 2 + 2
+            add("fs calls %s %s" % (sc, "r" * n))
+            pos = list(range(n + 1))
+            if not allpos and len(pos) > 14:
+                pos = sorted(set([0, 1, 2, 3, n] + rng.sample(pos, 9)))
+            for i in pos:
+                add("fs calls %s %s" % (sc, "r" * i + "s" + "r" * (n - i)))
+
+        # 1. exhaustive: one DATA frame (+ a second frame), every cut pattern, every split position, both endings
+        strings = [[0x00, 0x01, 0xa1], [0x00, 0x02, 0xa1, 0xa2], [0x00, 0x03, 0xa1, 0xa2, 0xa3], [0x00, 0x04, 0x00, 0x01, 0x02, 0x03],
+                   [0x00, 0x02, 0x00, 0x01, 0x00, 0x01, 0xb1], [0x00, 0x03, 0x07, 0x01, 0x05, 0x21, 0x00],
+                   [0x00, 0x04, 0x04, 0x02, 0x06, 0x05], [0x00, 0x05, 0xa1, 0xa2, 0xa3], [0x21, 0x02, 0x00, 0x01, 0x00, 0x01, 0xc1],
+                   [0x00, 0x00, 0x00, 0x02, 0x01, 0x00, 0x01, 0x00]]
+        for bs in strings:
+            for parts in cuts_all(bs):
+                for ending in ("fin", "open"):
+                    lines(parts, ending, 0.0, True)
+        # 2. bodies built from the grammar: DATA frames of 0..12 bytes whose payload LOOKS like frames, unknown frames in
+        #    between, optionally trailers / a frame that is an error / a truncation; cut at random, Pending inserted
+        def body():
+            bs = []
+            for _ in range(rng.choice([1, 1, 2, 3])):
+                r = rng.random()
+                if r < 0.7:
+                    n = rng.choice([0, 1, 2, 3, 4, 5, 8, 12])
+                    pl = []
+                    while len(pl) < n:     # payload bytes that decode as frame headers if taken for one
+                        pl += rng.choice([[0x00, 0x01], [0x01, 0x00], [0x07, 0x01, 0x05], [0x04, 0x00], [0x21, 0x01], [0x02, 0x00],
+                                          [0x00, 0x05], [0x40, 0x00], [rng.randrange(256)]])
+                    bs += frame(0x0, pl[:n], rng, rng.choice([None, None, 1, 2, 3]), rng.choice([None, None, 1, 2, 3]))
+                elif r < 0.85:
+                    ty = rng.choice(OTHER)
+                    bs += frame(ty, payload_for(ty, rng), rng)
+                else:
+                    bs += frame(0x0, [rng.randrange(256) for _ in range(rng.choice([6, 20, 70]))], rng)
+            r = rng.random()
+            if r < 0.2:
+                bs += frame(0x1, [rng.randrange(256) for _ in range(rng.randrange(0, 5))], rng)       # trailers end the body
+            elif r < 0.35:
+                ty = rng.choice([0x3, 0x4, 0x5, 0x7, 0xd] + H2)
+                bs += frame(ty, payload_for(ty, rng), rng, None, None, rng.choice([0, 0, 1, -1]))
+            if rng.random() < 0.25 and len(bs) > 1:
+                bs = bs[:rng.randrange(1, len(bs))]
+            return bs
+
+        for _ in range(1500 if big else 260):
+            bs = body()
+            if len(bs) <= 6:
+                cs = list(cuts_all(bs))
+                if len(cs) > 8:
+                    cs = rng.sample(cs, 8)
+            else:
+                cs = [cuts_random(bs, rng) for _ in range(3)] + [[bs]] + [[[b] for b in bs]]
+            for parts in cs:
+                parts = [p for p in parts if p]
+                lines(parts, rng.choice(["fin", "fin", "open", "reset"]), rng.choice([0.0, 0.0, 0.3]), False)
+        add("fs calls c0001aa,f rsrsr")      # the halves cannot be split again: bad-op on both sides
+
     def klass(self, line, impl):
         w = line.split()
+        if w[0] == "fs" and len(w) > 3 and w[1] == "calls" and w[3] and set(w[3]) <= set("rs"):
+            last = impl.split(" ")[-1] if impl else "empty"
+            kind = last.split(":")[0] + (":" + last.split(":")[-1] if last.startswith("E:") else "")
+            where = "none" if "s" not in w[3] else "first" if w[3].startswith("s") else "between"
+            return "fs/calls-rs/end=%s/data=%d/split=%s" % (kind, min(impl.count("D:"), 1), where)
         if w[0] == "frame":
             return "frame/" + impl.split(" ")[0] + ("/" + impl.split(" ")[1].split("(")[0] if impl.startswith(("ok", "err")) else "")
         last = impl.split(" ")[-1] if impl else "empty"
@@ -384,6 +463,11 @@ class C02(Prop):
         if w[0] == "frame" and w[2] != "-" and len(w[2]) > 2:
             out.append("frame %s %s" % (w[1], w[2][:-2]))
             out.append("frame %s %s" % (w[1], w[2][2:]))
+        if w[0] == "fs" and len(w) > 3 and w[1] == "calls" and set(w[3]) <= set("rs"):
+            # fewer calls (the split stays)
+            for i, c in enumerate(w[3]):
+                if c == "r" and len(w[3]) > 2:
+                    out.append(" ".join(w[:3] + [w[3][:i] + w[3][i + 1:]]))
         if w[0] == "fs":
             evs = w[2].split(",") if w[2] != "-" else []
             if len(evs) > 40:
@@ -415,5 +499,16 @@ class C02(Prop):
                     out.append(" ".join(w[:2] + [",".join(m)] + w[3:]))
         return out
 
+
+# second round (split()): appended here so that the class body above stays as it was
+C02.rule = C02.rule.replace("; non-trivial = ", "; `fs calls` over r (poll_recv_data on a real client::RequestStream over the scripted "
+                            "stream) and s (split()): DATA frames whose payload looks like frame headers, every cut pattern of short "
+                            "strings and random cuts of longer bodies, s at every position of the call sequence, judged by the RFC "
+                            "oracle; non-trivial = ")
+C02.level_text += ("; split() is the identity on the frame-layer state (buffer, end-of-stream flag, expected memo, remaining_data): "
+                   "call sequences with splits anywhere answer like the same sequences without them, also for the request-body "
+                   "reader poll_recv_data, whose frame-layer answers stay a prefix of the reference automaton's tokens")
+C02.level_note += ("; split() is reached through a real client::RequestStream (send_request over a one-stream scripted transport), "
+                   "the only public way to FrameStream::split")
 
 PROP = C02()
